@@ -6,6 +6,7 @@ import (
 	"fmt"
 	"strconv"
 	"strings"
+	"sync"
 	"time"
 
 	"go.minekube.com/gate/pkg/edition/java/config"
@@ -160,6 +161,34 @@ func (w *world) apply(op string) string {
 		return w.cfgLine(false)
 	case "cflush":
 		return w.cfgLine(w.cfg.Flush(csc(f[1])))
+	case "cflushrace":
+		// flushQueuedPluginMessagesTo(s) with the client read loop handling one more plugin message while
+		// the flush is in the middle of its first backend write
+		s, idx, n := atoi(f[1]), f[2], atoi(f[3])
+		var once sync.Once
+		clientDone := make(chan struct{})
+		started := false
+		w.c.conns[s].OnEntry = func(rc.Entry) {
+			once.Do(func() {
+				started = true
+				go func() {
+					defer close(clientDone)
+					w.cfg.HandlePluginMessage("v:m"+idx, zeros[:n])
+				}()
+				select { // give the client message every chance to get in (it cannot while h.mu is held)
+				case <-clientDone:
+				case <-time.After(25 * time.Millisecond):
+				}
+			})
+		}
+		err := w.cfg.Flush(csc(f[1]))
+		w.c.conns[s].OnEntry = nil
+		if started {
+			<-clientDone
+		} else {
+			w.cfg.HandlePluginMessage("v:m"+idx, zeros[:n])
+		}
+		return w.cfgLine(err)
 	case "clogin":
 		// handleServerLoginSuccess flushes the config queue only if the client's active handler is the
 		// config handler; with the client in PLAY it calls doSwitch instead (no flush)
@@ -340,8 +369,11 @@ func (g *gen) cfgRandom(class string, n int) {
 		switch k := r.Intn(100); {
 		case k < 55:
 			g.cm(class, g.pickLen())
-		case k < 70:
+		case k < 67:
 			g.do(class, fmt.Sprintf("cflush %d", r.Intn(nB)))
+		case k < 70:
+			g.do(class, fmt.Sprintf("cflushrace %d %d %d", r.Intn(nB), g.cn, g.pickLen()))
+			g.cn++
 		case k < 80:
 			g.do(class, "cinfl "+optB(r))
 		case k < 90:
@@ -467,6 +499,16 @@ func main() {
 		g.cm("fixed", 3<<20)
 		g.cm("fixed", 1<<20)
 		g.cm("fixed", 1)
+	})
+	// the client read loop handles a message while the flush is writing: it must come after the queued ones
+	sc("fixed", func() {
+		g.do("fixed", "cinfl 0")
+		g.cm("fixed", 3)
+		g.cm("fixed", 4)
+		g.do("fixed", fmt.Sprintf("cflushrace 0 %d 5", g.cn))
+		g.cn++
+		g.cm("fixed", 6)
+		g.do("fixed", "cflush 0")
 	})
 	// the switch defect (known finding): login success of backend 1 with the client in PLAY does not flush
 	sc("fixed", func() {
